@@ -24,10 +24,13 @@ THEOREMS = [NS + n for n in [
     "reparse_url_partial",
     "reparse_of_parse_partial",
     "parsed_fields_nonempty",
+    "parsed_path_fields_clean",
     "witness_facts",
     "fullReparse_false",
     "excluded_shapes_fail",
+    "excluded_query_chars_fail",
     "fixed_findings_behave",
+    "segment_blanks_behave",
 ]]
 TABLE_OBLIGATIONS = [NS + n for n in [
     "patterns_unchanged",
@@ -46,12 +49,13 @@ def owns_op(op):
 
 RULE = (
     "Cases are typed. url: (url, allow_relative_urls) -> parse_facebook_url (record fields + .url + .full_id), has_facebook_comments, "
-    "parse(record.url) again, the hypotheses of the round-trip theorems on the record (reparsable / charsOk, Lean vs a "
-    "Python port), and the seven other functions of the module on the same string (is_facebook_id, is_facebook_full_id, is_facebook_url, "
+    "parse(record.url) again, the hypotheses of the round-trip theorems on the record and the derived cleanness of its path-borne "
+    "fields (reparsable / charsOk / pathFieldsClean, Lean vs a Python port), and the seven other functions of the module on the same string (is_facebook_id, is_facebook_full_id, is_facebook_url, "
     "is_facebook_post_url, is_facebook_link, extract_url_from_facebook_link, convert_facebook_url_to_mobile). Stream: the corpus (every input "
     "of the fixed C19 findings that concern facebook.py: the 15 truncated paths of f72868e, photo urls of 24fcd80, /posts/ urls of 696e630, "
     "unsplittable urls of d948b00, look-alike hosts, the empty segments of fec1df7, the empty set ids of 3eab049, the album segments of "
-    "ad3e67d, the upper-case hosts of 7e5e990) x both options; every path of 0-3 (quick) / 0-4 (thorough) segments over the 13 route "
+    "ad3e67d, the upper-case hosts of 7e5e990, the blank-ended segments of the FB5 fix with every kind of str.isspace character around "
+    "segments, before '?' / '#', around query values, and the inputs of every remaining exclusion of charsOk) x both options; every path of 0-3 (quick) / 0-4 (thorough) segments over the 13 route "
     "words (watch videos photo.php photo photos posts permalink.php story.php groups permalink profile.php people l.php) + id-like "
     "(1234567890), too-short (12), handle-like (nasa), album-like (a.123), empty, x.php, a..b, too-long (40 digits) segments, with and "
     "without trailing slash, a query cycled over 12 query sets (v, fbid+set, id+story_fbid, &amp;, empty values, set=g.), short paths also "
@@ -61,10 +65,11 @@ RULE = (
     "7 scheme forms x 13 representative paths x fragments ('#', '#!/nasa/posts/1', ...) x both options; relative references; then seeded "
     "random urls (0-5 segments over the wider vocabulary incl. watchme, peoplex, 'a.', 'aa..', '.', '..', 'a;', 'a b', %-escapes, non-ASCII; "
     "0-3 query items; '&amp;'); every path of 1-3 segments over 13 tokens with blanks around id-like / handle-like segments ('nasa ', "
-    "' nasa', ' ', '5 '). str: arbitrary strings (fixed list with '123\\n', non-ASCII digits, '&AMP%3B', IPv6 / userinfo / port oddities; "
+    "' nasa', ' ', '5 '), every path of 1-3 segments over 15 tokens with at least one of 7 segments carrying U+00A0, U+3000, U+001F, "
+    "U+000B, U+2028, U+0085, U+2003, U+001C around or inside. str: arbitrary strings (fixed list with '123\\n', non-ASCII digits, '&AMP%3B', IPv6 / userinfo / port oddities; "
     "all strings of length <= 3 (quick) / 4 over {u = & ? a . 1 LF}; seeded random over a 32-character alphabet) -> the seven functions, "
     "parse with both options, the four hand-modelled regex uses (MISTAKES_RE.sub, SLASH_SQUEEZE_RE.sub, ...) next to the generic interpreter "
-    "(three-way with the real re), and the "
+    "(three-way with the real re), the per-segment strip ('/'.join(p.strip() for p in s.split('/')) vs Model stripSegments), and the "
     "CPython prelude the model rests on (parse_qsl, SplitResult.hostname, str.split(sep,1), str.replace, in). rec: every branch of every "
     ".url / .full_id builder on field grids (incl. None, '', 'a b', 'x/y', 'a?b', 'None'). Non-trivial = url: the string reaches the router "
     "(is_facebook_url, or a relative reference with allow_relative_urls); str: non-empty. Distinct = distinct (url, option)."
@@ -93,8 +98,8 @@ TRUSTED = [
     "URL_EXTRACT_RE's group 2 is derived from the match span: all three tied to their pattern string by a table obligation and compared "
     "three-way (real re / generic interpreter / hand model) on every str case",
     "ural.utils.pathsplit, safe_urlsplit, ensure_protocol are the shared models of Model/Builders.lean and Model/Protocol.lean (C20)",
-    "the Python port of the theorem hypotheses (reparsable, charsOk) used for the distribution labels is compared with the "
-    "Lean predicates on every parsed record (op fb_hyp)",
+    "the Python port of the theorem hypotheses (reparsable, charsOk) used for the distribution labels and of the derived predicate "
+    "pathFieldsClean is compared with the Lean predicates on every parsed record (op fb_hyp)",
 ]
 ASSUMPTIONS = [
     "strings contain no lone surrogates; non-ASCII characters come from the plain set of DESIGN.md §4 (str.lower is the identity on them, "
@@ -103,29 +108,30 @@ ASSUMPTIONS = [
     "whose message is the documented one, and it is not raised when urllib's hostname of the url is facebook.<tld> or a subdomain of it "
     "(fb.me, which has no mobile site, and look-alike hosts are not judged)",
     "reading of the round trip: demanded of every returned record whose fields are plain id-like / handle-like tokens ([A-Za-z0-9_.-]+ "
-    "and blanks — an id typed with a stray blank, as the youtube part reads it —, not '.' / '..'), the quantifier's 'id-like / handle-like / "
+    "and blanks — an id typed or pasted with a stray blank, as the youtube part reads it: any str.isspace character but TAB CR LF, which "
+    "urlsplit deletes —, not '.' / '..'), the quantifier's 'id-like / handle-like / "
     "too-short / too-long segments'; for every other record only totality is "
     "demanded (record.url and parse(record.url) do not raise). A record with an empty string in a field is not well-formed (as for the other "
     "platforms: 'record with id \'\'' findings)",
     "the property text names no facebook validator: the oracle does not demand is_facebook_id of any field (proved for the model: record_valid)",
 ]
 UNPROVED = (
-    "Round trip: proved for every returned record under the character-level hypothesis charsOk alone (reparse_of_parse_partial: path-borne "
-    "fields without '/ ? # ;' and white space and not a dot segment; query-borne fields without '& # + %' TAB CR LF); that no field is empty "
-    "(parsed_fields_nonempty) and that no earlier route takes the canonical url are derived, the former exclusions for empty segments, empty "
-    "set ids, 'a.' inside album ids and handles starting with 'people' are gone (fixes fec1df7, 3eab049, ad3e67d of /repo; "
-    "fixed_findings_behave). reparse_url_partial is the same for every record, returned or not, satisfying the decidable reparsable. The full "
-    "statement over every string (FullReparse) stays false by design for url metacharacters that urljoin resolves or parse_qs decodes ('..', "
-    "'a;', 'v=a%26b', 'v=a%2Bb': fullReparse_false, excluded_shapes_fail) — outside the property's quantifier (id-like / handle-like "
-    "segments); that region is explored by the oracle for totality only (label reparse=not-demanded). White space in a path-borne field: "
-    "a field that ends the canonical url and ends with white space really fails (known finding KF-C19-FB-5, witness in "
-    "excluded_shapes_fail, patch notes/fixes/facebook-5-segment-blanks.diff); blanks elsewhere (in front, inside, at the end of a field that "
-    "does not end the url) survive the round trip on every explored input and are excluded for the proof only — the oracle demands the "
-    "round trip of them (label reparse=demanded-explored). '? #' in a path-borne field cannot occur in a path urlsplit "
-    "returns (excluded for the proof only). convert_facebook_url_to_mobile: that the only exception is the "
-    "documented TypeError and exactly when it is raised (urlsplit refuses, or no 'facebook' in the lower-cased netloc) is proved. "
-    "is_facebook_id & co are total by their type (Bool); nothing is proved about which strings they accept beyond the regenerated pattern "
-    "terms. The CPython prelude is modelled, not verified."
+    "Round trip: proved for every returned record r with charsOk r (reparse_of_parse_partial), where charsOk excludes only the characters "
+    "that the builders do not escape and that urljoin / urlsplit / parse_qs read as syntax: a path-borne field with ';' or equal to '.' / "
+    "'..'; a query-borne field with '& # + %' TAB CR LF. Each of these exclusions really fails, by design (excluded_shapes_fail, "
+    "excluded_query_chars_fail: '..', 'a;', 'v=a%26b', 'v=a%2Bb', 'v=a%2541', 'v=a%23b', 'v=a%09b', '/people/x/a%26b'); the hypothesis "
+    "over-approximates the failing class on two sides only: 'a;b' (non-empty params) and 'a%zz' (not an escape) survive the round trip but "
+    "are excluded. Everything else is derived from the fact that the parser returned the record: no field is empty "
+    "(parsed_fields_nonempty); a path-borne field has no white space at its ends — the FB5 fix: str.strip() per segment before routing —, "
+    "no '/ ? #' and no TAB CR LF (parsed_path_fields_clean: it is strip() of a piece between two slashes of the path urlsplit returned); no "
+    "earlier route takes the canonical url. White space inside a field, or anywhere in a query-borne field, is inside the proved part. "
+    "reparse_url_partial is the same for every record, returned or not, satisfying the decidable reparsable. The full statement over every "
+    "string (FullReparse) is false by design (fullReparse_false) — on the excluded class only, which is outside the property's quantifier "
+    "(id-like / handle-like segments) and is explored by the oracle for totality only (label reparse=not-demanded); every record the oracle "
+    "demands the round trip of satisfies charsOk (label reparse=demanded-unproved: 0 cases). convert_facebook_url_to_mobile: that the only "
+    "exception is the documented TypeError and exactly when it is raised (urlsplit refuses, or no 'facebook' in the lower-cased netloc) is "
+    "proved. is_facebook_id & co are total by their type (Bool); nothing is proved about which strings they accept beyond the regenerated "
+    "pattern terms. The CPython prelude (urlsplit, urljoin, parse_qsl, unquote, str.strip's white-space set) is modelled, not verified."
 )
 
 # --------------------------------------------------------------------------------------
@@ -226,7 +232,7 @@ def run_op(op):
     if f == "fb_hyp":
         def hyp():
             r = fb.parse_facebook_url(op["url"], allow_relative_urls=op["rel"])
-            return None if r is None else [reparsable(fb, r), chars_ok(r)]
+            return None if r is None else [reparsable(fb, r), chars_ok(r), path_fields_clean(r)]
         return lib.guarded(hyp)
     if f == "fb_re":
         from ural import utils
@@ -238,6 +244,8 @@ def run_op(op):
             "mistakes_generic": fixed,
             "squeeze_hand": utils.SLASH_SQUEEZE_RE.sub("/", s),
             "squeeze_generic": _re.sub(utils.SLASH_SQUEEZE_RE, "/", s),
+            # the per-segment strip of parse_facebook_url (str.strip(): the str.isspace set), next to Model stripSegments
+            "strip_segments": "/".join(part.strip() for part in s.split("/")),
             "mobile": _re.sub(fb.MOBILE_REPLACE_RE, "m.facebook.", s),
             "domain": bool(_re.search(fb.FACEBOOK_DOMAIN_RE, s)),
             "extract": _span(fb.URL_EXTRACT_RE.search(s)),
@@ -288,8 +296,13 @@ def impl(case):
 # ported to Python: compared with the Lean predicate on every parsed record (op `fb_hyp`), used
 # only to label the inputs "covered by the theorem" / "explored only" in the distribution
 # --------------------------------------------------------------------------------------
+def seg_all(s):
+    """every character is a `segChar`"""
+    return all(c not in "/?#;\t\r\n" for c in s)
+
+
 def seg_ok(s):
-    return s != "" and all(c not in "/?#;" and not c.isspace() for c in s) and s not in (".", "..")
+    return s != "" and seg_all(s) and s not in (".", "..") and not s[0].isspace() and not s[-1].isspace()
 
 
 def qval_ok(s):
@@ -339,18 +352,14 @@ def reparsable(fb, r):
             return False
         p = r.parent_id if r.parent_id is not None else r.parent_handle
         a = r.album_id
-        return (seg_ok(p) and seg_ok(r.id) and a != "" and all(c not in "/?#;" and not c.isspace() for c in a) and no_watch(p)
+        return (seg_ok(p) and seg_ok(r.id) and a != "" and seg_all(a) and not a[-1].isspace() and no_watch(p)
                 and no_watch(r.id) and p != "videos" and isid(p) == (r.parent_id is not None))
     return False
 
 
-def seg_all(s):
-    return all(c not in "/?#;" and not c.isspace() for c in s)
-
-
 def seg_chars(s):
     """`Ural.Facebook.segChars`"""
-    return seg_all(s) and s not in (".", "..")
+    return ";" not in s and s not in (".", "..")
 
 
 def qval_chars(s):
@@ -384,14 +393,56 @@ def chars_ok(r):
         if (r.parent_id is not None and r.parent_handle is not None) or r.group_id is not None or r.album_id is None:
             return False
         p = r.parent_id if r.parent_id is not None else r.parent_handle
-        return seg_chars(p) and seg_chars(r.id) and seg_all(r.album_id)
+        return seg_chars(p) and seg_chars(r.id) and ";" not in r.album_id
     return False
+
+
+def clean_all(s):
+    return all(c not in "/?#\t\r\n" for c in s)
+
+
+def seg_clean(s):
+    """`Ural.Facebook.segClean`"""
+    return clean_all(s) and not s[:1].isspace() and not s[-1:].isspace()
+
+
+def path_fields_clean(r):
+    """`Ural.Facebook.pathFieldsClean`: the conclusion of `parsed_path_fields_clean`"""
+    t = type(r).__name__
+    if t == "FacebookHandle":
+        return seg_clean(r.handle)
+    if t == "FacebookGroup":
+        if (r.id is None) == (r.handle is None):
+            return True
+        return seg_clean(r.id if r.id is not None else r.handle)
+    if t == "FacebookPost":
+        parents = (r.parent_id, r.parent_handle, r.group_id, r.group_handle)
+        if sum(x is not None for x in parents) != 1 or r.parent_id is not None:
+            return True
+        return seg_clean([x for x in parents if x is not None][0]) and seg_clean(r.id)
+    if t == "FacebookVideo":
+        return True if r.parent_id is None else (seg_clean(r.parent_id) and seg_clean(r.id))
+    if t == "FacebookPhoto":
+        if (r.parent_id is None) == (r.parent_handle is None) or r.group_id is not None or r.album_id is None:
+            return True
+        p = r.parent_id if r.parent_id is not None else r.parent_handle
+        a = r.album_id
+        return seg_clean(p) and seg_clean(r.id) and clean_all(a) and not a[-1:].isspace()
+    return True
 
 
 # --------------------------------------------------------------------------------------
 # oracle: the property, on the implementation only
 # --------------------------------------------------------------------------------------
-TOKEN_RE = _re.compile(r"^[A-Za-z0-9_.\- ]+$")
+TOKEN_CHARS = frozenset("ABCDEFGHIJKLMNOPQRSTUVWXYZabcdefghijklmnopqrstuvwxyz0123456789_.-")
+
+
+def plain_token(v):
+    """letters, digits, `_ . -` and blanks — any `str.isspace` character but TAB, CR, LF (which `urlsplit` deletes wherever
+    they are: by design)"""
+    return v != "" and all(c in TOKEN_CHARS or (c.isspace() and c not in "\t\r\n") for c in v)
+
+
 DOC_ERROR_RE = _re.compile(r"^ural\.facebook\.convert_facebook_url_to_mobile: .* is not a facebook url$", _re.S)
 FB_HOST_RE = _re.compile(r"(?:^|\.)facebook\.[^.]+$")
 
@@ -402,13 +453,13 @@ def slots_of(r):
 
 def in_scope(r):
     """the records the round trip is demanded of: every field is a plain id-like / handle-like
-    token (letters, digits, `_ . -`, and blanks: an id typed or pasted with a stray blank, as for
-    the youtube part), not a dot segment (the reading of the quantifier "id-like / handle-like /
-    too-short / too-long segments")"""
+    token (letters, digits, `_ . -`, and blanks: an id typed or pasted with a stray blank — a
+    space, a no-break space, an ideographic space … —, as for the youtube part), not a dot segment
+    (the reading of the quantifier "id-like / handle-like / too-short / too-long segments")"""
     for _, v in slots_of(r):
         if v is None:
             continue
-        if not isinstance(v, str) or not TOKEN_RE.match(v) or v in (".", ".."):
+        if not isinstance(v, str) or not plain_token(v) or v in (".", ".."):
             return False
     return True
 
@@ -529,46 +580,9 @@ def oracle(case):
 
 
 # --------------------------------------------------------------------------------------
-# known findings (KNOWN_FINDINGS.json; KF-C19-FB-1..4 are fixed: FX-C19-fec1df7 / 3eab049 / ad3e67d / 7e5e990)
+# known findings: none (KF-C19-FB-1..5 are fixed: FX-C19-fec1df7 / 3eab049 / ad3e67d / 7e5e990 / FB5; their inputs are in
+# the corpus below, so a revert of a fix is an unlisted violation)
 # --------------------------------------------------------------------------------------
-def _records(case):
-    """the (string, rel, record) triples the oracle looks at for this case"""
-    fb = fbmod()
-    if case["k"] == "url":
-        todo = [(case["url"], case["rel"])]
-    elif case["k"] == "str":
-        todo = [(case["s"], False), (case["s"], True)]
-    else:
-        todo = []
-    out = []
-    for s, rel in todo:
-        try:
-            r = fb.parse_facebook_url(s, allow_relative_urls=rel)
-        except Exception:  # noqa
-            continue
-        if r is not None:
-            out.append((s, rel, r))
-    return out
-
-
-def kf_fb_trailing_blank(case, failure):
-    """KF-C19-FB-5: a path segment that ends with white space becomes a field; at the end of the
-    canonical url the white space is stripped by pathsplit, so the url parses to another record
-    (or to None for an all-blank field).  Patch: notes/fixes/facebook-5-segment-blanks.diff"""
-    if "but its url" not in failure or "parses to" not in failure:
-        return False
-    fb = fbmod()
-    for s, rel, r in _records(case):
-        try:
-            u = r.url
-            r2 = fb.parse_facebook_url(u)
-        except Exception:  # noqa
-            continue
-        if u is not None and u != u.rstrip() and not (r2 == r and type(r2) is type(r)):
-            return True
-    return False
-
-
 # --------------------------------------------------------------------------------------
 # generators
 # --------------------------------------------------------------------------------------
@@ -609,12 +623,26 @@ CORPUS_URLS = [
     "https://www.facebook.com/nasa/photos/xa./5",
     # 7e5e990 (formerly KF-C19-FB-4): the host test of convert_facebook_url_to_mobile ignores case
     "HTTP://WWW.FACEBOOK.COM/nasa", "FaceBook.com/nasa", "https://M.FACEBOOK.com/nasa?x=1",
-    # KF-C19-FB-5 (known): a segment that ends with a blank, at the end of the canonical url
+    # FX-C19-FB5 (formerly KF-C19-FB-5): a segment that ends with a blank, at the end of the canonical url
     "https://www.facebook.com/a /b", "https://www.facebook.com/ /a", "https://www.facebook.com/x/posts/5 /y",
     "https://www.facebook.com/groups/nasa /x", "https://www.facebook.com/nasa/videos/5 /", "https://www.facebook.com/people/a/5 /b",
-    # ... and blanks that survive: in front, inside, at the end of a field that does not end the url
+    # ... and blanks that survived before the fix: in front, inside, at the end of a field that does not end the url
     "https://www.facebook.com/ nasa", "https://www.facebook.com/na sa", "https://www.facebook.com/nasa /posts/5",
     "https://www.facebook.com/nasa /photos/a.1 /5", "https://www.facebook.com/watch?v=a%20", "https://www.facebook.com/ people/a/5",
+    # ... the other str.isspace characters (str.strip() drops them all, as pathsplit does at the end of the url)
+    "https://www.facebook.com/a\xa0/b", "https://www.facebook.com/\u3000nasa\u3000", "https://www.facebook.com/x/posts/5\x1f/y",
+    "https://www.facebook.com/\x0bnasa\x85/photos/\u2028a.1\u2003/\x1c5\x1d?x", "https://www.facebook.com/groups/\u205fnasa\u1680",
+    "https://www.facebook.com/\xa0/\u3000/ ", "https://www.facebook.com/ watch /?v=1", "https://www.facebook.com/ photo.php ?fbid=5",
+    "https://www.facebook.com/nasa /", "https://www.facebook.com/nasa / /posts/ / 5 ", "/a /b", "a\xa0/b", " /nasa", "/nasa ",
+    # ... blanks in and around query values (not stripped; they survive the round trip), before '?' and '#'
+    "https://www.facebook.com/photo.php?fbid=5 ", "https://www.facebook.com/photo.php?fbid= 5&set=a.1 &set=g.2\xa0",
+    "https://www.facebook.com/permalink.php?story_fbid=1 &id=2 ", "https://www.facebook.com/watch?v=7\u3000",
+    "https://www.facebook.com/profile.php?id=\xa09\x1f", "https://www.facebook.com/nasa ?x=1", "https://www.facebook.com/nasa #x",
+    "https://www.facebook.com/nasa/posts/5 ?x#y", "https://www.facebook.com/watch?v=%20a%20", "https://www.facebook.com/watch?v=%C2%A0a",
+    # the exclusions of charsOk that remain, each failing by design (excluded_shapes_fail, excluded_query_chars_fail): totality only
+    "https://www.facebook.com/..", "https://www.facebook.com/a;", "https://www.facebook.com/a;b", "https://www.facebook.com/watch?v=a%26b",
+    "https://www.facebook.com/watch?v=a%2Bb", "https://www.facebook.com/watch?v=a%2541", "https://www.facebook.com/watch?v=a%23b",
+    "https://www.facebook.com/watch?v=a%09b", "https://www.facebook.com/people/x/a%26b", "https://www.facebook.com/nasa/posts/a%0Ab",
 ]
 
 ROUTES = ["watch", "videos", "photo.php", "photo", "photos", "posts", "permalink.php", "story.php", "groups", "permalink",
@@ -622,8 +650,11 @@ ROUTES = ["watch", "videos", "photo.php", "photo", "photos", "posts", "permalink
 SEGS_QUICK = ROUTES + ["1234567890", "12", "nasa", "a.123", "", "x.php", "a..b", "9" * 40]
 SEGS_EXTRA = ["watchme", "peoplex", "Groups", "a.", "aa..", ".", "..", "a;", "a b", "n%20sa", "1234_5678", "é", "x" * 70, "nasa ", " nasa", " ",
               "5 "]
-# blanks around id-like / handle-like segments (KF-C19-FB-5 and its surviving neighbours): every path of 1-3 segments
+# blanks around id-like / handle-like segments (FX-C19-FB5, formerly KF-C19-FB-5): every path of 1-3 segments
 SEGS_BLANK = ["nasa", "1234567890", "nasa ", " nasa", " ", "5 ", "groups", "posts", "videos", "photos", "a.1", "permalink", "people"]
+# ... and the other str.isspace characters, around and inside: every path of 1-3 segments with one of them
+SEGS_UBLANK = ["nasa\xa0", "\u3000nasa", "5\x1f", "\x0b1234567890\u2028", "\x85", "na\u2003sa", " a.1\x1c"]
+SEGS_UPLAIN = ["nasa", "5", "groups", "posts", "videos", "photos", "a.1", "people"]
 QKEYS = ["v", "fbid", "set", "id", "story_fbid", "u"]
 QVALS = ["1234567890", "nasa", "a.55", "g.77", "", "g.", "a.", "a%26b", "a+b", "é"]
 HOSTS = ["facebook.com", "www.facebook.com", "m.facebook.com", "fr-fr.facebook.com", "web.facebook.com", "fb.me", "facebook.co",
@@ -690,6 +721,14 @@ def url_cases(rng, tier):
         for combo in itertools.product(SEGS_BLANK, repeat=n):
             if any(" " in x for x in combo):
                 c = emit("https://www.facebook.com" + _path(combo, False), False)
+                if c:
+                    yield c
+    i = 0
+    for n in range(1, 4):
+        for combo in itertools.product(SEGS_UBLANK + SEGS_UPLAIN, repeat=n):
+            if any(x in SEGS_UBLANK for x in combo):
+                i += 1
+                c = emit("https://www.facebook.com" + _path(combo, i % 3 == 0) + ("?fbid=5 &id=2\xa0&story_fbid=1" if i % 5 == 0 else ""), False)
                 if c:
                     yield c
     if not quick:
@@ -835,8 +874,8 @@ def classify(case):
             if chars_ok(r):
                 labs.append("reparse=proved")  # hypothesis of reparse_of_parse_partial
             elif in_scope(r):
-                # in the oracle's scope, outside the theorem's: a field with a blank (explored; KF-C19-FB-5 where it fails)
-                labs.append("reparse=demanded-explored")
+                # in the oracle's scope, outside the theorem's: cannot happen (the token alphabet has none of the excluded characters)
+                labs.append("reparse=demanded-unproved")
             else:
                 labs.append("reparse=not-demanded")
     except Exception as e:  # noqa
